@@ -39,6 +39,9 @@ KNOBS = {
 def gen(rs: int, tier: str, index: int) -> dict:
     s = gen_worker_script(rs, tier_knobs(KNOBS, tier, index))
     from sim.rng import stream
+    rb = stream(rs, "c10prebound")
+    if s["config"].get("middlewares") and rb.random() < 0.2:
+        s["config"]["mw_prebound"] = rb.randint(0, 3)
     r = stream(rs, "c10shared")
     if r.random() < 0.2 and s["messages"]:
         # a task declared on the shared broker (async_shared_broker.task) and sent through the default broker: the same hooks,
